@@ -2,6 +2,7 @@
 From Coq Require Import ZArith List Bool.
 From PyCraft Require Import Base.Res Model.VarInt Model.Frame Model.Cfb8 Model.Negotiate.
 From PyCraft Require Import Proofs.FrameProofs Proofs.CipherProofs Proofs.C01Proofs Proofs.NegotiateProofs.
+From PyCraft Require Model.LoopErr Proofs.LoopErrProofs.
 Import ListNotations.
 Open Scope Z_scope.
 
@@ -50,6 +51,14 @@ Theorem C15_status_fallback : forall e allowed default lt fuel, single allowed =
     ([{| t_pv := lt; t_next := 1; t_follow := FRequest |}; {| t_pv := default; t_next := 2; t_follow := FLoginStart |}], Login default).
 Proof. intros e allowed default lt fuel H1 H2. apply (fallback e allowed default lt fuel H1 H2 Closed). tauto. Qed.
 Print Assumptions C15_status_fallback.
+
+(* the peer is gone altogether (end of stream and the client's own writes failing): the write error that the loop holds back
+   is never dropped - unless a disconnect packet is read in that turn, the turn ends by raising (Model/LoopErr.v; an
+   end-of-stream error of the read is an [rd_raises]) *)
+Theorem C15_held_write_error_not_dropped : forall reads e,
+  forallb (fun r => negb (LoopErr.rd_disconnect r)) reads = true -> exists e', LoopErr.read_phase (Some e) reads = LoopErr.TRaised e'.
+Proof. exact LoopErrProofs.held_error_not_dropped. Qed.
+Print Assumptions C15_held_write_error_not_dropped.
 
 Example C15_ex :
   read_until_error (fun x => Some x) 3 false [[2; 7]; [9; 3; 8; 1]] = ([(7, [9])], Err EOFError) /\
